@@ -202,11 +202,49 @@ EXTRA = {
 }
 
 
+# clauses added in the rounds 5 and 6 (appended as well)
+EXTRA2 = {
+    'C01': ' Rounds 5/6: CRC table and address classes (shared C11.R1/R4); inline SymbolString accessors evaluated on a model of '
+           'the telegram layout (C01.R15); the handler starts in the no-signal state (C01.R16).',
+    'C02': ' Rounds 5/6: CRC table (C02.R14), telegram layout accessors (C02.R15), initial state (C02.R16).',
+    'C03': ' Rounds 5/6: the answer decision is renewed per command (C03.R10); the device is disarmed after every arbitration '
+           'result and after the drain of the queue (C03.R11/R12, found a genuine defect); a deferred STARTED/FAILED stays '
+           'buffered (C03.R13); the initial master count includes ebusd itself (C03.R14); initial state (C03.R15).',
+    'C04': ' Rounds 5/6: a notify() whose answer is discarded finishes the request for that result in every implementation '
+           '(C04.R7); named arguments are not passed crosswise (C04.R8).',
+    'C06': ' Rounds 5/6: built-in name tables are one-to-one (C06.R10); named arguments not crosswise (C06.R11).',
+    'C07': ' Rounds 5/6: value list keys are range-checked at every construction (C07.R8, found a genuine defect); the '
+           'divisor is applied before the range texts are parsed for every divisor other than 0 and 1 (C07.R9); inline '
+           'helpers of the headers are in scope.',
+    'C08': ' Rounds 5/6: the chain prefix is reduced per part (C08.R7); telegram layout accessors (C08.R8).',
+    'C09': ' Rounds 5/6: part time stamps (C09.R7), slave part only for slave destinations (C09.R8), telegram layout accessors '
+           'evaluated on a model (C09.R9), index of the slave read (C09.R10), limit of an explicit chain length (C09.R11), '
+           'named arguments not crosswise (C09.R12).',
+    'C10': ' Rounds 5/6: bit bookkeeping of hasFullByteOffset (C10.R5); telegram layout accessors (C10.R6); part decision '
+           '(C10.R7); named arguments not crosswise (C10.R8).',
+    'C12': ' Rounds 5/6: the probe bounds of the ID lookup do not depend on the load order (shared C08.R3 as C12.R6).',
+    'C13': ' Rounds 5/6: isAvailable and combined conditions (C13.R6/R7); derived conditions keep circuit/level/name in their '
+           'slots (C13.R8); data size and ID length compared in one unit (C13.R9).',
+    'C14': ' Rounds 5/6: behind the device read m_bufLen only grows by the bytes read (C14.R7); the info buffer holds the '
+           'longest documented response (C14.R8).',
+    'C15': ' Rounds 5/6: automatic answer registration (C15.R11); the destination of the answer command does not depend on '
+           'the option order (C15.R12).',
+    'C16': ' Rounds 5/6: lookups of the data sinks (C16.R7); sink levels fall back to the default entry only for an unknown '
+           'user (C16.R2); the listen path evaluates the levels behind every determination of the user (C16.R8); named '
+           'arguments not crosswise (C16.R9).',
+    'C18': ' Rounds 5/6: Connection receive size (C18.R7); a searched position is not used on a replaced or shortened string '
+           '(C18.R8); hex arguments tested for whole bytes one by one (C18.R9); named arguments not crosswise (C18.R10).',
+    'C19': ' Rounds 5/6: writer and reader agree on when a length counts bits for every constructible bit count (C19.R7).',
+    'C20': ' Rounds 5/6: sentinel agreement and clamp dominance (C20.R13/R14); heap buffer against the size kept for it '
+           '(C20.R15); searched positions on replaced strings (C20.R16).',
+}
+
+
 def main():
     checks = []
     for pid in sorted(CHECKS):
         c = dict(CHECKS[pid])
-        c['text'] = c['text'] + EXTRA.get(pid, '')
+        c['text'] = c['text'] + EXTRA.get(pid, '') + EXTRA2.get(pid, '')
         checks.append({
             'property_id': pid,
             'quick_cmd': 'python3 engine/py/check.py %s --tier quick' % pid,
